@@ -241,7 +241,13 @@ class CoreMixin:
             out.heap[k] = a if a is b else self.phi(c, a, b)
         for k in set(s1.cur) | set(s2.cur):
             ident = self.g.nodes[k]
-            a, b = s1.cur.get(k, ident), s2.cur.get(k, ident)
+            a, b = s1.cur.get(k), s2.cur.get(k)
+            if (a is None or b is None) and k > c.id:
+                # the object was created after the branch point: it exists on one path only
+                out.cur[k] = a if a is not None else b
+                continue
+            a = ident if a is None else a
+            b = ident if b is None else b
             out.cur[k] = a if a is b else self.phi(c, a, b)
         return out
 
